@@ -154,6 +154,22 @@ class ProgGen:
         return [self.w.sys(a, 1, t), self.w.sys(b, 1, t)] + self.lookups(t, 1) + \
                [self.w.sys(a, 2, t)] + self.single(t) + [self.w.sys(b, 2, t)]
 
+    def with_gaps(self, chunks, t):
+        """records of other kinds that the SAME thread logs between the records of one string (ordinary domain, or single
+        records of the trace domain which land in the string's window): the text is made of the string's own records"""
+        rnd, w = self.rnd, self.w
+        if len(chunks) < 2 or rnd.random() > 0.3:
+            return chunks
+        out = [chunks[0]]
+        for c in chunks[1:]:
+            if rnd.random() < 0.5:
+                out += rnd.choice([lambda: self.ord_single(t), lambda: [w.ntd(t, rnd.randrange(1, 5), rnd.choice(self.pids))],
+                                   lambda: [w.exd(t, rnd.choice(self.pids))], lambda: [w.tpid(t, rnd.choice(self.pids))],
+                                   lambda: [w.term(t, rnd.randrange(1, 5))],
+                                   lambda: ([w.known(rnd.choice([0, 3]), t, name=rnd.choice(w.trace_known))] if w.trace_known else [])])()
+            out.append(c)
+        return out
+
     def trace_item(self, t):
         rnd = self.rnd
         r = rnd.random()
@@ -175,12 +191,12 @@ class ProgGen:
                 out.append(w.exs(t, self.name32()))
             return out
         if r < 0.5 and self.strings:
-            return w.tname(t, self.text(maxlen=100) or b'x', prev=rnd.random() < 0.3)
+            return self.with_gaps(w.tname(t, self.text(maxlen=100) or b'x', prev=rnd.random() < 0.3), t)
         if r < 0.65 and self.strings:
             sid = self.sid_next
             self.sid_next += 1
             self.known_sids.append(sid)
-            return w.gstr(t, self.text(maxlen=120), sid)
+            return self.with_gaps(w.gstr(t, self.text(maxlen=120), sid), t)
         if r < 0.75:
             # a record of this thread that names ANOTHER (possibly live) thread
             return [w.term(t, other)] if rnd.random() < 0.6 else [w.thd(t, pid, other)]
